@@ -105,11 +105,14 @@ def make_client_config(rng, focus, idx):
     off_prob = 0.2 if (focus == 'C05' and not probe and rng.random() < 0.12) else 0.0
     if off_prob:
         workload = 'multi'
+    # C05 only: buffer programs whose first nodes (a wrapped constant and a buffer typed by it)
+    # are recorded before the inputs are wrapped; plain-float buffers, so ndarray operands only
+    prelude = focus == 'C05' and fam == 'buffer' and not off_prob and rng.random() < 0.2
     prog = programs.gen_program(rng, fam, n_in, outs, size,
-                                truth_only=truth_only, off_prob=off_prob)
+                                truth_only=truth_only, off_prob=off_prob, prelude=prelude)
     if workload == 'multi' and len(n_in) == 2:
         _use_second_input(rng, prog)
-    if rng.random() < 0.45:
+    if rng.random() < 0.45 or prelude:
         rec = {'kind': 'nd', 'vals': [point(rng, n) for n in n_in]}
         if rng.random() < 0.2:
             # an integer array as recording point (numpy.array([1, 2, 3])): the results must not
@@ -119,7 +122,7 @@ def make_client_config(rng, focus, idx):
     else:
         D, P = rand_DP(rng)
         rec = {'kind': 'utpm', 'D': D, 'P': P, 'vals': [utpm_values(rng, D, P, n) for n in n_in]}
-    return {'program': prog, 'workload': workload, 'rec': rec}
+    return {'program': prog, 'workload': workload, 'rec': rec, 'nd_only': bool(prelude)}
 
 
 def _use_second_input(rng, prog):
@@ -225,12 +228,13 @@ def make_run(focus, seed):
 
     def emit_fwd(c, poison=False):
         prog = prog_of(c)
-        if rng.random() < 0.35:
+        nd_only = clients_cfg[c.idx].get('nd_only')
+        if rng.random() < 0.35 or nd_only:
             kind, D, P = 'nd', None, None
         else:
             kind = 'utpm'
             D, P = rand_DP(rng)
-        if c.last_fwd_kind == (kind, D, P) and rng.random() < 0.5:
+        if c.last_fwd_kind == (kind, D, P) and rng.random() < 0.5 and not nd_only:
             kind = 'utpm'
             D, P = rand_DP(rng)
         feedback = False
